@@ -313,7 +313,7 @@ def run(ctx):
         if not f:
             continue
         pn = f.params[0]["name"]
-        form = lg.fn_formula(f, {"this": None, "params": {}})
+        form = lg.fn_formula(f, {"this": None, "params": {}}, noreturn_false=True)
         if form is None:
             ctx.broken("R01.5", f, "matches-skeleton", "matches() is not a loop-free boolean function", f)
             continue
@@ -389,6 +389,14 @@ def run(ctx):
                               "option-like token (`--output --unknown=5`), whose name is never looked at" % (a, n.get("ln"), [logic.show(g) for g in before.get((bid, i), [])][:6]),
                               (f, n.get("ln")), why_ok="!(%s starts with '-')" % a)
     ctx.need("R01.11", "look-ahead update_value sites (both instantiations)", n11, 2)
+    # ---- R01.12: a toggle token that carries `=value` is rejected, not counted with its value dropped (R11.2 re-evaluated)
+    ctx.rule("R01.12", "every write of a toggle's count happens for a token without `=value` (R11.2 re-evaluated): `--no-color=never` is an error, not a silently dropped value")
+    if ctx.prop == "C01" and not getattr(ctx, "_sharing", False):
+        from .common import share
+        share(ctx, "C11", ("R11.2",), "R01.12", "toggle guards shared with C11", 6)
+        # the letter accounting of bundles presupposes that no two options share a letter - in every parser that parses
+        ctx.rule("R01.13", "the letter-uniqueness check runs on every parse (R13.4 re-evaluated): the bundle accounting of R01.8 adds up per-toggle counts and is only sound when letters are unique")
+        share(ctx, "C13", ("R13.4",), "R01.13", "consistency-check obligations shared with C13", 6)
     # ---- R01.9: what a token set is still there when parse() returns - check() consults environment/default only when the
     # command line gave nothing (C03's R03.1 re-evaluated for all three kinds)
     ctx.rule("R01.9", "a consumed token's effect is not overwritten after the loop: check() leaves command-line values alone (R03.1 re-evaluated)")
